@@ -219,27 +219,26 @@ def check(repo):
         sm2 = None
         r4.fail_fn(ce, ce.node, "expansion loop", "_ctr_expand is no longer <prefix>; <one expansion loop>; return (%s)" % e)
     if sm2 is not None:
-        C, RES = S.mv("C"), S.mv("RES")
-        blk = ("call", ("method", ("call", ("fn", "self.hash_func"), (("cat", (cmsg, ("call", ("fn", "int_to_bytes"), (C,), ()))),), ()), "digest"), (), ())
-        eqs2 = [(("const", 1), lambda asg: sm2.init.get(asg["C"])),
-                (("const", b""), lambda asg: sm2.init.get(asg["RES"])),
-                (("cat", (RES, blk)), lambda asg: sm2.step.get(asg["RES"])),
-                (("cat", (C, ("const", 1))), lambda asg: sm2.step.get(asg["C"]))]
-        f2 = S.match_all(eqs2, ["C", "RES"], sm2.carried)
+        RES = S.mv("RES")
+        ctr = shape.counter_of(sm2)
+        f2 = None
+        if ctr is not None and ctr[1] == ("const", 1) and ctr[2] == ("const", 1):
+            Cv = ("var", ctr[0])
+            blk = ("call", ("method", ("call", ("fn", "self.hash_func"), (("cat", (cmsg, ("call", ("fn", "int_to_bytes"), (Cv,), ()))),), ()), "digest"), (), ())
+            eqs2 = [(("const", b""), lambda asg: sm2.init.get(asg["RES"])),
+                    (("cat", (RES, blk)), lambda asg: sm2.step.get(asg["RES"]))]
+            f2 = S.match_all(eqs2, ["RES"], [v for v in sm2.carried if v != ctr[0]])
         if f2 is None:
-            why = [nm for nm, (pat, _g), pool in zip(("counter starts at 1", "empty accumulator", "block = hash(message || I2B(counter))", "counter step 1"), eqs2,
-                                                       (sm2.init, sm2.init, sm2.step, sm2.step)) if not any(S.unify(pat, v, {}) for v in pool.values())]
-            r4.fail_fn(ce, sm2.loop, why[0] if why else "counter-mode recurrence",
-                       "_ctr_expand no longer expands as result += hash(message || I2B(c)) for c = 1, 2, ...: %s; per iteration it computes %s" % (
-                           " / ".join(why) or "the equations have no common witness", {k: S.show(v)[:100] for k, v in sm2.step.items()}))
+            r4.fail_fn(ce, sm2.loop, "counter-mode recurrence" if ctr is not None and ctr[1] == ("const", 1) else "counter starts at 1",
+                       "_ctr_expand no longer expands as result += hash(message || I2B(c)) for c = 1, 2, ... (block = hash(message || I2B(counter))): counter %s; per iteration "
+                       "it computes %s" % ("%s from %s step %s" % (ctr[0], S.show(ctr[1]), S.show(ctr[2])) if ctr else "not found", {k: S.show(v)[:100] for k, v in sm2.step.items()}))
         else:
             asg2, _ = f2
-            r4.ok({"C": asg2["C"], "RES": asg2["RES"], "res'": S.show(sm2.step[asg2["RES"]])[:140]})
-            tm2 = shape.times(sm2, None)
+            r4.ok({"C": ctr[0], "RES": asg2["RES"], "res'": S.show(sm2.step[asg2["RES"]])[:140]})
             ln = ("call", ("fn", "len"), (("var", asg2["RES"]),), ())
-            c = tm2[1] if tm2 and tm2[0] == "until" else None
-            oku = c is not None and c[0] == "cmp" and len(c[1]) == 1 and ((c[1][0] == "Lt" and c[2] == (ln, olen)) or (c[1][0] == "Gt" and c[2] == (olen, ln)))
-            r2.require(oku, ce, "expands until long enough", "_ctr_expand stops when %s" % (S.show(c) if c else tm2), sm2.loop)
+            cc = shape.continue_condition(sm2)
+            oku = cc == (("Lt", ln, olen), True)
+            r2.require(oku, ce, "expands until long enough", "_ctr_expand keeps expanding while %s; expected while len(result) < output_length" % (cc,), sm2.loop)
             r2.require(sm2.ret == ("slice", ("var", asg2["RES"]), None, olen), ce, "truncated to output_length", "_ctr_expand returns %s" % (S.show(sm2.ret) if sm2.ret else None))
     hc = repo.func(HASH, "HashlibHashVariableOutputLengthWrapper.__call__")
     hmsg = ("var", hc.params[1])
